@@ -130,8 +130,6 @@ def script_ops(line):
 def keyfn(line, code):
     if code == 244:
         return "R10-count-test-accepts-non-R10-5x5"
-    if any(op in (3, 4) for op in script_ops(line)):
-        return "complete-or-refine-of-an-already-decomposed-node"
     if code == 242:
         return "stored-determinant-minor-is-not-a-violator"
     return line
